@@ -377,7 +377,7 @@ def run(chk):
     configs = [('HTML5', 'default', False), ('HTML5', 'default', True), ('HTML5', 'minimal', False), ('XHTML', 'default', False), ('XHTML', 'default', True)]
     jobs = []
     per_doc = {'text': 6, 'footnote': 4, 'title': 4, 'subtitle': 4, 'item': 4, 'descterm': 4, 'cell': 4, 'caption': 3, 'verbatim': 4, 'verb': 4, 'emph': 4, 'indexkey': 3, 'bib': 3, 'doctitle': 1, 'boxed': 4}
-    budget = 1400 if tier == 'quick' else 40000
+    budget = 1400 if tier == 'quick' else 8000
     pools = dict((p, [t for t in texts if usable(t, p)]) for p in POSITIONS)
     cursor = dict((p, 0) for p in POSITIONS)
     ndocs = 0
